@@ -1,4 +1,5 @@
 import Blue.Driver.Util
+import Blue.Driver.C09
 import Blue.Driver.C17
 import Blue.Driver.C18
 import Blue.Driver.C12
@@ -40,15 +41,25 @@ def dispatch (toks : List String) : String :=
   | "skip" :: _ | "list" :: _ => Blue.Driver.C17.handle toks
   | _ => "bad-op"
 
-partial def loop (h : IO.FS.Stream) (out : IO.FS.Stream) : IO Unit := do
+partial def loop (h : IO.FS.Stream) (out : IO.FS.Stream) (grp : Option Blue.Driver.C09.Ctx) : IO Unit := do
   let line ← h.getLine
   if line.isEmpty then return ()
   let l := line.trimAscii.toString
-  if l.startsWith "#" then out.putStrLn l
-  else out.putStrLn (dispatch (tokens l))
-  loop h out
+  if l.startsWith "#" then
+    out.putStrLn l
+    loop h out grp
+  else
+    match tokens l with
+    | "dmg" :: rest =>
+      -- C09: the pristine file of a line group is the only state the driver keeps
+      let (grp', answer) := Blue.Driver.C09.step grp rest
+      out.putStrLn answer
+      loop h out grp'
+    | toks =>
+      out.putStrLn (dispatch toks)
+      loop h out grp
 
 def main : IO Unit := do
   let i ← IO.getStdin
   let o ← IO.getStdout
-  loop i o
+  loop i o none
